@@ -28,7 +28,7 @@ struct Ser { size_t n, measure, npretty, mpretty; };
 template <typename F> static void ser(F build, char* out, size_t cap, char* outp, size_t capp, Ser* s) {
   arena.reset(); JsonDocument doc(&arena); build(doc);
   s->n = serializeJson(doc, out, cap); s->measure = measureJson(doc);
-  s->npretty = serializeJsonPretty(doc, outp, capp); s->mpretty = measureJsonPretty(doc);
+  if (capp) { s->npretty = serializeJsonPretty(doc, outp, capp); s->mpretty = measureJsonPretty(doc); }
 }
 W void w_ser_arr_i_s_u(int32_t i, const char* p, size_t n, uint32_t u, char* out, size_t cap, char* outp, size_t capp, Ser* s) {
   ser([&](JsonDocument& d) { d.add(i); d.add(JsonString(p, n, JsonString::Copied)); d.add(u); }, out, cap, outp, capp, s);
@@ -39,7 +39,7 @@ W void w_ser_obj_k_b(const char* k, size_t kn, bool b, char* out, size_t cap, ch
 W void w_ser_nested(int32_t i, char* out, size_t cap, char* outp, size_t capp, Ser* s) {
   ser([&](JsonDocument& d) { JsonArray a = d["a"].to<JsonArray>(); a.add(i); a.add<JsonObject>(); d["e"].to<JsonArray>(); }, out, cap, outp, capp, s);
 }
-W void w_ser_scalar_i64(int64_t v, char* out, size_t cap, Ser* s) { arena.reset(); JsonDocument doc(&arena); doc.set(v); s->n = serializeJson(doc, out, cap); s->measure = measureJson(doc); }
+W void w_ser_scalar_i64(int32_t v, char* out, size_t cap, Ser* s) { arena.reset(); JsonDocument doc(&arena); doc.set(v); s->n = serializeJson(doc, out, cap); s->measure = measureJson(doc); }
 W void w_ser_raw(const char* p, size_t n, char* out, size_t cap, Ser* s) { arena.reset(); JsonDocument doc(&arena); doc.add(serialized(p, n)); s->n = serializeJson(doc, out, cap); s->measure = measureJson(doc); }
 W void w_ser_nonfinite(unsigned which, char* out, size_t cap, Ser* s) {
   arena.reset(); JsonDocument doc(&arena); double v = which == 0 ? FloatTraits<double>::nan() : which == 1 ? FloatTraits<double>::inf() : which == 2 ? -FloatTraits<double>::inf() : 0.0;
